@@ -111,6 +111,47 @@ def synth_enum(rng, k, package_id):
     return head + rows
 
 
+CORE_IDS = ['"ba5eda7a-def5-0000-0000-00000000000%d"' % n for n in (1, 2, 3, 4, 5)]
+
+
+def replace_value(stmt, index, new_text):
+    '''the positional INSERT statement with its index-th value replaced (by the independent tokenizer)'''
+    toks = [(k, a, b) for k, a, b in sqlgen.tokenize(stmt) if k not in ('ws', 'comment')]
+    vals = [(a, b) for k, a, b in toks[5:] if k != 'punct']
+    a, b = vals[index]
+    return stmt[:a] + new_text + stmt[b:]
+
+
+def apply_edit(texts, edit):
+    '''
+    One edit of the BridgePoint model, as an edit of its rows: 'retype' points a user data type at another core
+    type, 'move' puts a class into the package of another class.  Returns the edited rows or None.
+    '''
+    rows = [values_of(t) for t in texts]
+    if edit['kind'] == 'retype':
+        cand = [i for i, (table, v) in enumerate(rows) if table == 'S_UDT' and len(v) >= 2 and v[1] in CORE_IDS]
+        if not cand:
+            return None
+        i = cand[edit['pick'] % len(cand)]
+        others = [c for c in CORE_IDS[1:4] if c != rows[i][1][1]]
+        out = list(texts)
+        out[i] = replace_value(texts[i], 1, others[edit['to'] % len(others)])
+        return out
+    if edit['kind'] == 'move':
+        objs = set(v[0] for table, v in rows if table == 'O_OBJ' and v)
+        pe = [i for i, (table, v) in enumerate(rows) if table == 'PE_PE' and len(v) >= 5 and v[0] in objs]
+        if len(pe) < 2:
+            return None
+        i = pe[edit['pick'] % len(pe)]
+        homes = sorted(set(rows[j][1][2] for j in pe) - {rows[i][1][2]})
+        if not homes:
+            return None
+        out = list(texts)
+        out[i] = replace_value(texts[i], 2, homes[edit['to'] % len(homes)])
+        return out
+    return None
+
+
 def synth_entity(rng, k, package_id):
     '''rows of one extra external entity whose three to five bridges each return their own constant'''
     def uid():
@@ -205,6 +246,9 @@ class ModelOrderEngine(Engine):
             extra.append(synth_entity(rng, 0, pkg))
         cfg = {'model': name, 'extra': extra, 'plans': [st['sched'].getrandbits(48) for _ in range(sw.choice([2, 2, 3]))],
                'derived': sw.random() < 0.5, 'real_ctor': sw.random() < 0.1, 'globals': True}
+        if prop in ('C14', 'C20') and sw.random() < 0.3:
+            # an edited variant of the model, extracted by this (warm) process and by a freshly imported library
+            cfg['edit'] = {'kind': sw.choice(['retype', 'move']), 'pick': sw.randrange(64), 'to': sw.randrange(8)}
         ops = list(range(len(stmts)))
         return {'prop': prop, 'engine': self.name, 'seed': seed, 'cfg': cfg, 'ops': ops}
 
@@ -231,13 +275,36 @@ class ModelOrderEngine(Engine):
         loader.statements = list(base.statements)
         return loader
 
-    def extract(self, prop, loader, cfg):
+    def cold_extract(self, prop, texts, cfg):
+        '''
+        The same extraction by a freshly imported copy of the library (a restarted process as far as the library's
+        module-level state goes): xtuml and bridgepoint are dropped from sys.modules, imported again from the
+        scratch copy, used once, and the warm modules are put back.
+        '''
+        import importlib
+        import sys
+        saved = {k: v for k, v in sys.modules.items()
+                 if k in ('xtuml', 'bridgepoint') or k.startswith(('xtuml.', 'bridgepoint.'))}
+        for k in saved:
+            del sys.modules[k]
+        try:
+            bp = importlib.import_module('bridgepoint')
+            xsd = importlib.import_module('bridgepoint.gen_xsd_schema')
+            loader = bp.ModelLoader(load_globals=cfg.get('globals', True))
+            loader.input('\n'.join(texts) + '\n', 'edited model')
+            return self.extract(prop, loader, cfg, xsd=xsd)
+        finally:
+            for k in [k for k in sys.modules if k in ('xtuml', 'bridgepoint') or k.startswith(('xtuml.', 'bridgepoint.'))]:
+                del sys.modules[k]
+            sys.modules.update(saved)
+
+    def extract(self, prop, loader, cfg, xsd=None):
         x = self.x
         if prop == 'C20':
             m = loader.build_metamodel()
             out = []
             for c_c in m.select_many('C_C'):
-                out.append((c_c.Name, canon_xml(self.xsd.build_schema(m, c_c))))
+                out.append((c_c.Name, canon_xml((xsd or self.xsd).build_schema(m, c_c))))
             return sorted(out)
         comp = loader.build_component(derived_attributes=cfg.get('derived', False))
         if prop == 'C14':
@@ -369,6 +436,30 @@ class ModelOrderEngine(Engine):
                 log.event('plan', step, perm[:10], cuts, routes)
                 if perm != list(range(len(texts))):
                     probes['reordered_deliveries'] = probes.get('reordered_deliveries', 0) + 1
+            if cfg.get('edit'):
+                step = len(cfg['plans']) + 1
+                etexts = apply_edit(texts, cfg['edit'])
+                if etexts is not None:
+                    warm_loader = self.new_loader(cfg)
+                    warm_loader.input('\n'.join(etexts) + '\n', 'edited model')
+                    outcomes = []
+                    for f in (lambda: self.extract(prop, warm_loader, cfg), lambda: self.cold_extract(prop, etexts, cfg)):
+                        try:
+                            outcomes.append(('ok', f()))
+                        except SimStall:
+                            raise
+                        except Exception as e:
+                            outcomes.append(('raised', type(e).__name__))
+                    if outcomes[0] != outcomes[1]:
+                        raise Violation('history', 'the model with one edit (%r) is extracted differently by this process, '
+                                        'which has extracted other variants before, and by a freshly imported library: %s'
+                                        % (cfg['edit'], diff_any(outcomes[1][1], outcomes[0][1])
+                                           if outcomes[0][0] == outcomes[1][0] == 'ok' else repr((outcomes[0][0], outcomes[1][0]))),
+                                        'history:%s' % prop)
+                    if outcomes[0][0] == 'ok':
+                        probes['edit_%s_compared' % cfg['edit']['kind']] = probes.get('edit_%s_compared' % cfg['edit']['kind'], 0) + 1
+                        if outcomes[0][1] != base:
+                            probes['edit_changed_result'] = probes.get('edit_changed_result', 0) + 1
             states.add(stable_hash((cfg['model'], len(texts), cfg['plans'], [e[-1] for e in cfg.get('extra', [])])))
             log.event('base', stable_hash(repr(base)))
         except Violation as v:
